@@ -92,13 +92,13 @@ let drv_dns args =
     Buffer.contents out
   | _ -> "BADCASE"
 
-let side_max s = if s = "c" then udp_max_client else udp_max_server
+let side_c s = (s = "c")
 
 (* udpenc <side> <payloadhex> *)
 let drv_udpenc args =
   match args with
   | [side; d] ->
-    (match udp_encode (side_max side) (bytes_of_hex d) with
+    (match udp_encode (udp_max (side_c side)) (bytes_of_hex d) with
      | Some w -> "OK " ^ hex_of_bytes w
      | None -> "ERR")
   | _ -> "BADCASE"
@@ -107,7 +107,7 @@ let drv_udpenc args =
 let drv_udpdec args =
   match args with
   | side :: eof :: chunks ->
-    let (ds, e) = udp_stream_rd (side_max side) (chunks_of chunks) (closed_of eof) in
+    let (ds, e) = udp_stream_rd (udp_stop (side_c side)) (udp_max (side_c side)) (chunks_of chunks) (closed_of eof) in
     let b = Buffer.create 256 in
     List.iter (fun d -> Buffer.add_string b ("D " ^ hex_of_bytes d ^ " ")) ds;
     Buffer.add_string b (match e with
